@@ -171,6 +171,30 @@ func (e *c18Eth) generate(add func(kind, name, class string, tx []byte)) {
 	for _, k := range kinds {
 		c18KindInputs(add, k, e.memo, attacker)
 	}
+	// finality reports for the ongoing tracker signed by accounts that are NOT witnesses (and by witnesses with every
+	// slot index incl. other witnesses' slots): anybody can send one, it costs no fee
+	{
+		u1 := e.w.idKey[1]
+		for _, who := range []int{3, 4, 40} {
+			k := e.w.idKey[who]
+			for _, idx := range []int64{0, 1, 2, 3, 4, 1000} {
+				for _, ok := range []bool{true, false} {
+					add("ETH_REPORT_FINALITY_MINT", fmt.Sprintf("report by non-witness %d index %d success %v", who, idx, ok), "outsider",
+						mkTx(action.ETH_REPORT_FINALITY_MINT, &acteth.ReportFinality{TrackerName: e.name, Locker: u1.Addr, ValidatorAddress: k.Addr, VoteIndex: idx, Success: ok}, GAS, e.memo(), k))
+				}
+			}
+		}
+		for w := 0; w < 4; w++ {
+			k := e.w.idKey[20+w]
+			for _, idx := range []int64{0, 1, 2, 3} {
+				if int(idx) == w {
+					continue
+				}
+				add("ETH_REPORT_FINALITY_MINT", fmt.Sprintf("report by witness %d in slot %d", w, idx), "outsider",
+					mkTx(action.ETH_REPORT_FINALITY_MINT, &acteth.ReportFinality{TrackerName: e.name, Locker: u1.Addr, ValidatorAddress: k.Addr, VoteIndex: idx, Success: true}, GAS, e.memo(), k))
+			}
+		}
+	}
 	names, blobs := e.embedded()
 	for _, k := range kinds[:4] {
 		base := decodeSigned(k.Build(e.memo()))
